@@ -471,6 +471,9 @@ func opTree(v ssa.Value, d int) string {
 		return x.Op.String() + opTree(x.X, d+1)
 	case *ssa.Field:
 		if _, n, ok := fieldOf(x); ok {
+			if base := opTree(x.X, d+1); base != "$" && !strings.HasPrefix(base, ".") {
+				return base + "." + n // a field of a computed value (e.g. a call result)
+			}
 			return "." + n
 		}
 	case *ssa.FieldAddr:
